@@ -460,7 +460,21 @@ RULE_ADDENDA_R7 = {
     "C19": ("Raw manifests include null elements in the package and registry arrays."),
     "C20": ("Names include a non-UTF-8 byte and leading dots."),
 }
+RULE_ADDENDA_R8 = {
+    "C01": ("Destinations may already hold symlinks to outside files and directories (dangling ones too)."),
+    "C03": ("Rule files contain lines that are not patterns (a bracket never closed): Pack and the reference ignore them, the bundle leg refuses loudly."),
+    "C04": ("Links that were under the destination before the first call and are still as they were are not Unpack's."),
+    "C08": ("Finders also report warning diagnostics."),
+    "C09": ("The listings are taken again after all lookups (looking things up changes nothing); worlds pin build-metadata twins, and other spellings of a bundled version are asked six times."),
+    "C13": ("Finders also report warning diagnostics."),
+    "C16": ("A shared Packer carries allow lists of length 1-8."),
+    "C18": ("A refused manifest is opened a second time and must be refused again."),
+    "C19": ("Tree hazards include links that run through themselves with a remainder; an 'opendir' mode offers directories whose manifest is a fifo, a link to a fifo or to /dev/zero, a directory, a dangling or self-referential link, or unreadable."),
+    "C20": ("Reuse also packs two and three trees successfully with one Packer and looks at every Meta again at the end."),
+}
 for _k, _v in RULE_ADDENDA.items():
+    PROPS[_k]["rule"] += " " + _v
+for _k, _v in RULE_ADDENDA_R8.items():
     PROPS[_k]["rule"] += " " + _v
 for _k, _v in RULE_ADDENDA_R7.items():
     PROPS[_k]["rule"] += " " + _v
